@@ -83,7 +83,7 @@ Trial1(x, acc) ==
   /\ k' = Max(1, Nint(x))
   /\ stage' = IF ~acc THEN "trial1"
               ELSE IF mode = 10 THEN "emitkb"
-              ELSE IF mode \in SumModes THEN "pair" ELSE "trial2"
+              ELSE IF mode \in SumModes THEN "pair" ELSE "scan2"
   /\ e2' = IF acc /\ mode \in SumModes THEN Max(0, e0 - x) ELSE e2
   /\ UNCHANGED <<mode, zneg, e0, ebb1, ebb2, imax, np, species, started>>
 
@@ -91,6 +91,18 @@ EmitKb ==
   /\ stage = "emitkb"
   /\ species' = <<"e+", "g">> /\ np' = 2 /\ stage' = "done"
   /\ UNCHANGED <<mode, zneg, e0, ebb1, ebb2, imax, e1, e2, k, started>>
+
+\* second lepton of the window modes: the majorant of its spectrum is searched on the 1-keV grid points ks..kf that lie in
+\* [max(0, ebb1-e1), ebb2-e1] - ks is the grid point at or just BELOW the lower end (truncation, as in Decay0:
+\* max0(1,int(re2s*1000.))), so the majorant covers the whole range
+Scan2(ks, kf) ==
+  /\ stage = "scan2"
+  /\ LET lo == Max(0, ebb1 - e1)
+         hi == ebb2 - e1 IN
+     /\ ks \in {Max(1, Max(0, lo - Slack) \div KeV), Max(1, (lo + Slack) \div KeV)}
+     /\ kf \in {Max(0, hi - Slack) \div KeV, (hi + Slack) \div KeV}
+  /\ stage' = "trial2"
+  /\ UNCHANGED <<mode, zneg, e0, ebb1, ebb2, imax, e1, e2, k, np, species, started>>
 
 \* second lepton of the window modes: uniform in [max(0, ebb1-e1), ebb2-e1]
 Trial2(y, acc) ==
@@ -133,17 +145,18 @@ Next ==
         w1 < w2 /\ InitSpectrum(w1, w2)
   \/ \E acc \in BOOLEAN : Trial4(acc) \/ Trial3(acc)
   \/ \E x \in GridVals(IF mode = 10 THEN ebb1 ELSE 0, ebb2), acc \in BOOLEAN : Trial1(x, acc)
+  \/ (stage = "scan2" /\ Scan2(Max(1, Max(0, ebb1 - e1) \div KeV), (ebb2 - e1) \div KeV))
   \/ \E y \in GridVals(Max(0, ebb1 - e1), ebb2 - e1), acc \in BOOLEAN : stage = "trial2" /\ ebb2 - e1 >= 0 /\ Trial2(y, acc)
 
 Spec == Init /\ [][Next]_vars
 
 -----------------------------------------------------------------------------
 TypeOK ==
-  /\ mode \in AllModes /\ stage \in {"enter", "trial1", "trial2", "trial3", "trial4", "pair", "emit2", "emit4", "emitkb", "done"}
+  /\ mode \in AllModes /\ stage \in {"enter", "trial1", "scan2", "trial2", "trial3", "trial4", "pair", "emit2", "emit4", "emitkb", "done"}
 
 \* the table bin used by the first-lepton test lies inside the table (k-1 indexes spthe1[0..4299]); beyond imax the
 \* table is zero, so k = imax + 1 (possible with nearest-integer rounding) is always rejected, never out of bounds
-IndexInTable == (stage \in {"trial1", "trial2", "pair", "emitkb"} /\ k # 0) => (k >= 1 /\ k <= imax + 2 /\ k <= TableSize)
+IndexInTable == (stage \in {"trial1", "scan2", "trial2", "pair", "emitkb"} /\ k # 0) => (k >= 1 /\ k <= imax + 2 /\ k <= TableSize)
 
 \* the window is inside [0, e0] once the sampler is initialised
 WindowClamped == started => (0 <= ebb1 /\ ebb2 <= e0 + Slack)
